@@ -121,7 +121,7 @@ def run(ctx) -> None:
     rep.rule("C02.R3", "the concurrently gathered coroutine writes the shared copy only at routing_decisions[<own node>]", floor=2)
     rep.rule("C02.R4", "tasks and result application follow ready-list order; first error in order; successes applied before raising", floor=5)
     rep.rule("C02.R5", "sync/async siblings agree on actions, keywords, validation order and result-materialisation guard", floor=8)
-    rep.rule("C02.R6", "scheduling is a pure function of graph and state", floor=3)
+    rep.rule("C02.R6", "scheduling is a pure function of graph and state", floor=4)
 
     collect = db.func("runners._shared.helpers.collect_inputs_for_node")
     gstate = db.cls("runners._shared.types.GraphState")
@@ -433,7 +433,61 @@ def run(ctx) -> None:
                     set_iter_bad.append((f, x))
                 if isinstance(x, (ast.Yield, ast.Return)):
                     set_iter_bad.append((f, x))
+    # the producer-first deferral must not depend on the position of a node in the ready list:
+    # the outputs of *all* co-ready nodes are collected before the first deferral decision
+    dfn = db.func("runners._shared.helpers._defer_wait_for_nodes")
+    dcfg = ctx.cfg(dfn)
+    ddom = dominators(dcfg.entry)
+    coll = [n for n in dcfg.nodes if any(isinstance(c.func, ast.Attribute) and c.func.attr in ("update", "add") and c.args and "outputs" in src(c.args[0]) for c in dcfg.calls_at(n))]
+    okd = bool(coll)
+    whyd = "collection of co-ready outputs not found"
+    if okd:
+        cl = [enclosing(n.ast, (ast.For,)) for n in coll]
+        setname = [c.func.value.id for n in coll for c in dcfg.calls_at(n) if isinstance(c.func, ast.Attribute) and c.func.attr in ("update", "add") and isinstance(c.func.value, ast.Name)][0]
+        tests = [n for n in dcfg.nodes if n.ast is not None and n.kind in ("test", "stmt") and any(isinstance(c, ast.Compare) and isinstance(c.ops[0], (ast.In, ast.NotIn)) and isinstance(c.comparators[0], ast.Name) and c.comparators[0].id == setname for e in dcfg.header_exprs(n) for c in ast.walk(e))]
+        okd = bool(tests) and all(l is not None for l in cl)
+        if okd:
+            for t in tests:
+                for l in cl:
+                    if contains(l, t.ast):
+                        okd, whyd = False, "wait_for names are compared with the outputs collected *so far* in the same pass: whether a waiter is deferred depends on whether its producer precedes it in the node list"
+                    else:
+                        ln = dcfg.nodes_for(l)
+                        if not ln or not any(x in ddom.get(t, set()) for x in ln):
+                            okd, whyd = False, "a deferral decision can be taken before the co-ready outputs were collected"
+        if okd:
+            whyd = "outputs of all co-ready nodes are collected before any deferral decision (independent of node-list order)"
+    rep.add("C02.R6", f"{dfn.qname}:order-independent", okd, dfn.loc(), whyd)
     rep.add("C02.R6", "helpers:set-iteration", not set_iter_bad, grn.loc(), f"{n_set_iters} set iteration(s) in the scheduler, none feeds a list/return order" if not set_iter_bad else f"{set_iter_bad[0][0].qname}:{set_iter_bad[0][1].lineno} builds an ordered result while iterating a set")
+
+
+
+def check_versions_from_snapshot(ctx, rule: str) -> None:
+    """Consumed input / wait_for versions are read from the pre-step snapshot in both supersteps."""
+    db, rep = ctx.db, ctx.rep
+    E = Effects(db)
+    gstate = db.cls("runners._shared.types.GraphState")
+    for ss in superstep_funcs(db):
+        snap = None
+        for p_ in ss.param_names:
+            t = db.ann_to_ty(ss.param_annotation(p_), ss.module, ss)
+            if t is not None and gstate in t.classes():
+                snap = p_
+        if snap is None:
+            raise AnalysisError(f"{ss.qname}: snapshot parameter (GraphState) not found")
+        found = 0
+        for f in _with_closures(ss):
+            env = E.env(f)
+            for c in db.calls_in(f):
+                cals = db.resolve_call(c, f)
+                if any(cal.func is not None and cal.func.name == "get_version" and cal.func.cls == gstate for cal in cals) and isinstance(c.func, ast.Attribute):
+                    found += 1
+                    ps = E.paths(c.func.value, env)
+                    ok = bool(ps) and all(r in (snap, f"free:{snap}") and p2 == () for r, p2 in ps)
+                    tgt = _assigned_name(c)
+                    rep.add(rule, f"{f.qname}:{tgt}-from-snapshot", ok, f"{f.module.rel}:{c.lineno}", f"{tgt} recorded from the pre-step snapshot" if ok else f"{tgt} read from '{src(c.func.value)}', not from the pre-step snapshot: a node records a fresher version than the value it actually consumed and is never re-run with the upstream value")
+        if found < 2:
+            rep.bad(rule, f"{ss.qname}:versions-recorded", ss.loc(), "consumed versions are no longer recorded from GraphState.get_version")
 
 
 def _kwnorm(kwsets: set[tuple]) -> set[tuple]:
@@ -483,6 +537,7 @@ VARIANTS = [
     Variant("async-run-validates-other-order", TA, sub_first(r"(        validate_runner_compatibility\(graph, self\.capabilities\)\n        validate_node_types\(graph, self\.supported_node_types\)\n)(        effective_selected = resolve_runtime_selected\(select, graph\)\n        validate_inputs\(\n            graph,\n            normalized_values,\n            entrypoint=entrypoint,\n            selected=effective_selected,\n            on_internal_override=on_internal_override,\n        \)\n)", r"\2\1"), {"C02.R5"}),
     Variant("async-executor-materialise-by-type", "src/hypergraph/runners/async_/executors/function_node.py", replace_once("        if node.is_generator:\n            result = [item async for item in result] if inspect.isasyncgen(result) else list(result)", "        if inspect.isasyncgen(result):\n            result = [item async for item in result]\n        elif inspect.isgenerator(result):\n            result = list(result)"), {"C02.R5"}),
     Variant("async-superstep-skips-store", AS, replace_once("            if cache is not None and cache_key:\n                store_in_cache(node, outputs, new_state, cache, cache_key)\n\n            if active:\n                route_evt = build_route_decision_event(run_id, run_span_id, node, graph, new_state)\n                if route_evt is not None:\n                    await dispatcher.emit_async(route_evt)\n                await dispatcher.emit_async(build_node_end_event(run_id, node_span_id, run_span_id, node, graph, duration_ms))", "            if active:\n                route_evt = build_route_decision_event(run_id, run_span_id, node, graph, new_state)\n                if route_evt is not None:\n                    await dispatcher.emit_async(route_evt)\n                await dispatcher.emit_async(build_node_end_event(run_id, node_span_id, run_span_id, node, graph, duration_ms))"), {"C02.R5"}),
+    Variant("deferral-single-pass", HP, replace_once("    for node in ready:\n        ready_outputs.update(node.outputs)\n\n    # Defer nodes whose wait_for includes an output from a co-ready node\n    deferred: set[str] = set()\n    for node in ready:\n        if not node.wait_for:\n            continue\n", "    deferred: set[str] = set()\n    for node in ready:\n        ready_outputs.update(node.outputs)\n        if not node.wait_for:\n            continue\n"), {"C02.R6"}),
     Variant("scheduler-ready-from-set", HP, replace_once("            ready = [n for n in ready if n.name not in blocked_targets]", "            ready = [graph._nodes[nm] for nm in {n.name for n in ready} - blocked_targets]"), {"C02.R6"}),
     Variant("scheduler-writes-values", HP, replace_once("    activated = set()\n\n    # Use cached map", "    activated = set()\n    state.values.pop(\"__scratch__\", None)\n\n    # Use cached map"), {"C02.R6", "C02.R1"}),
     Variant("twin-extract-apply-helper", AS, replace_once("        node, outputs, input_versions, wait_for_versions = result\n        for name, value in outputs.items():\n            new_state.update_value(name, value)\n", "        node, outputs, input_versions, wait_for_versions = result\n        _apply_outputs(new_state, outputs)\n") and (lambda s: s.replace("        node, outputs, input_versions, wait_for_versions = result\n        for name, value in outputs.items():\n            new_state.update_value(name, value)\n", "        node, outputs, input_versions, wait_for_versions = result\n        _apply_outputs(new_state, outputs)\n").replace("async def run_superstep_async(", "def _apply_outputs(target: GraphState, outputs: dict[str, Any]) -> None:\n    for name, value in outputs.items():\n        target.update_value(name, value)\n\n\nasync def run_superstep_async(")), set()),
